@@ -323,6 +323,14 @@ def repo_on_path():
 def run_check(prop, tier, replay=None):
     t0 = time.time()
     seed = int(os.environ.get('VERIF_SEED', '0') or 0)
+    if replay:
+        try:
+            rp = json.load(open(replay))
+            seed = int(rp.get('seed', seed))
+            tier = rp.get('tier', tier)
+            log(f'replay: re-running {prop} with seed={seed} tier={tier} (all random choices derive from the seed)')
+        except (OSError, ValueError) as ex:
+            raise Infra(f'cannot read replay file {replay}: {ex}')
     tier = os.environ.get('VERIF_TIER', tier) if tier is None else tier
     tier = tier or 'quick'
     repo_on_path()
@@ -345,6 +353,15 @@ def run_check(prop, tier, replay=None):
     try:
         try:
             mod.run(ctx)
+            if ctx.disagreements and not ctx.violations and not ctx.tie_broken:
+                # correspondence broke during the run: search again at 10x budget for a failing input
+                log(f'{prop}: model and implementation differ; searching again at 10x budget for a failing input')
+                first = ctx
+                ctx = Ctx(prop, tier, seed + 7919, first.driver, True)
+                ctx.replay = replay
+                ctx.disagreements = list(first.disagreements)
+                mod.run(ctx)
+                ctx.notes.append(f'second pass at 10x budget after {len(first.disagreements)} correspondence disagreement(s)')
         finally:
             if ctx.driver:
                 ctx.driver.close()
@@ -354,6 +371,12 @@ def run_check(prop, tier, replay=None):
         raise
     except Exception:
         raise Infra('harness crashed:\n' + traceback.format_exc())
+    checker_extra = ''
+    if tier == 'thorough' and b.ok:
+        rc4, out4 = sh(['lake', 'env', 'leanchecker', f'Plotink.Props.{prop}'], cwd=LEAN, timeout=3000)
+        if rc4 != 0:
+            raise Infra('leanchecker rejected the compiled proofs:\n' + out4[-3000:])
+        checker_extra = f' && lake env leanchecker Plotink.Props.{prop}'
     if ctx.disagreements:
         tie_notes.append(f'correspondence: model and implementation differ on {len(ctx.disagreements)} in-domain input(s)')
     known = load_known(prop)
@@ -389,7 +412,7 @@ def run_check(prop, tier, replay=None):
         'property_id': prop, 'tier': tier, 'seed': seed, 'level': 'proof',
         'coverage': {
             'obligations': len(b.theorems), 'discharged': len(discharged),
-            'checker_cmd': f'cd lean && lake build Plotink.Props.{prop} && lake env lean .lake/audit/{prop}.lean  (#print axioms)',
+            'checker_cmd': f'cd lean && lake build Plotink.Props.{prop} && lake env lean .lake/audit/{prop}.lean  (#print axioms)' + checker_extra,
             'trusted_base': ['Lean 4 kernel', 'axioms: ' + (', '.join(axioms_seen) or 'none')] + list(getattr(mod, 'TRUSTED', [])),
             'theorems': {t: b.axioms.get(t, 'UNCHECKED') for t in b.theorems},
             'generated_from_source': {k: v['status'] for k, v in b.gen_report.items() if isinstance(v, dict)
